@@ -470,4 +470,7 @@ func runC20(r *mon.Run) {
 		w.Sample(map[string]any{"batch": batch, "goroutines": G, "calls_per_goroutine": calls, "operations": names, "overlapping_pairs_same_object": overlaps})
 		r.Extra("operations_seen", opsSeen)
 	})
+	// "package initialisation of the embedded tables is complete before any such call": every operation
+	// kind as the first library call of its own process
+	runColdStart(r, "c20", r.N(30, 450), "dsm", "sbm", "sm", "msm", "msmv", "pubkey", "verify", "btcverify", "recover", "schnorrverify", "ecdh", "sign", "schnorrsign", "h2c", "parsepub", "generate")
 }
